@@ -46,7 +46,7 @@ const FUZZ_FILES: &[&str] = &[
     "panics_fuzzed/minialloc_panic",
 ];
 
-pub fn gen(seed: u64, idx: u64, _tier: Tier) -> Case {
+pub fn gen(seed: u64, idx: u64, tier: Tier) -> Case {
     let mut rng = Rng::for_case(seed, "C05", idx);
     let version = if rng.chance(1, 2) { 3 } else { 4 };
     let mut c = Case::new("C05", "enumerate", version);
@@ -77,7 +77,8 @@ pub fn gen(seed: u64, idx: u64, _tier: Tier) -> Case {
         c.mode = "foreign-base".into();
         let mut plan = crate::imgwr::plan_from_seed(rng.next_u64(), version);
         plan.v3_size_high_garbage = false;
-        if idx % 8 == 7 {
+        // (these bases are 120-190 KB and cost ~20 s each: 4 in the quick tier, 1 base in 64 in the thorough tier)
+        if idx % 8 == 7 && (tier == Tier::Quick || idx % 64 == 7) {
             // a small version-3 file whose writer set aside enough FAT sectors for TWO (sometimes
             // three) DIFAT sectors: links between DIFAT sectors other than the first become
             // corruptible (cycles that do not pass through the first DIFAT sector)
